@@ -136,6 +136,81 @@ def gen_history(r, kind, maxops, seedpool):
     return "%s %d %s" % (cmpname, seed, ";".join(g.ops[:maxops]))
 
 
+def gen_sparse(r, maxops, seedpool, stats):
+    """'Sparse observation' history: only about a third of the operations are followed by
+    AsSlice / Len / the tower dump ('~' marks an unobserved op: return value only).  Contains runs of
+    2-5 unobserved mutations that leave the size unchanged (DeleteElement of a present element then
+    Insert), framed by observations - a result cached inside the list and invalidated only by a
+    change of the size is then visible."""
+    if r.random() < 0.25:          # an ordinary history, sparsely observed
+        h = gen_history(r, r.choice(["mix", "tall", "slice", "drain", "runs"]), maxops, seedpool)
+        p = (h.split(" ", 2) + [""])[:3]
+        ops = [o for o in p[2].split(";") if o.strip()]
+        ops = [o if (o.strip()[0] == "F" or r.random() < 1 / 3) else "~" + o for o in ops]
+        stats["unobserved_ops"] += sum(o.startswith("~") for o in ops)
+        return "%s %s %s" % (p[0], p[1], ";".join(ops))
+    cmpname = r.choice(CMPS)
+    g = Gen(r, cmpname, True)
+    seed = r.choice(seedpool) if (seedpool and r.random() < 0.25) else r.randint(1, 1 << 48)
+    lo, hi = r.choice([(0, 3), (0, 5), (-4, 9), (0, 40)])
+    n = r.randint(max(4, maxops // 2), maxops)
+
+    def hide():
+        g.ops[-1] = "~" + g.ops[-1]
+        stats["unobserved_ops"] += 1
+
+    def observe():
+        x = r.random()
+        if x < 0.4:
+            g.ops.append("A")
+        elif x < 0.6:
+            g.ops.append("L")
+        elif x < 0.75:
+            g.ops.append("G %d" % r.randint(0, max(0, len(g.live) - 1)))
+        elif x < 0.9:
+            g.ops.append("S %d:0" % (r.choice(g.live) if g.live and r.random() < 0.7 else r.randint(lo - 1, hi + 1)))
+        else:
+            g.ops.append("P")
+
+    if r.random() < 0.3:
+        g.fromslice([r.randint(lo, hi) for _ in range(r.randint(0, 10))])
+    for _ in range(r.randint(1, 6)):
+        g.ins(r.randint(lo, hi))
+        if r.random() < 2 / 3:
+            hide()
+    while len(g.ops) < n:
+        x = r.random()
+        if x < 0.4 and g.live:
+            # observation, then 2-5 unobserved mutations with the size unchanged at the end, then observation
+            if r.random() < 0.8:
+                observe()
+            k = r.randint(2, 5)
+            stats["const_size_runs"] += 1
+            while k >= 2 and g.live:
+                if r.random() < 0.5:
+                    g.dele(r.choice(g.live)); hide()
+                    g.ins(r.randint(lo, hi)); hide()
+                else:
+                    g.ins(r.randint(lo, hi)); hide()
+                    g.dele(r.choice(g.live)); hide()
+                k -= 2
+            if k == 1:
+                g.dele(hi + 7); hide()          # absent: no change at all
+            if r.random() < 0.8:
+                observe()
+        else:
+            y = r.random()
+            if y < 0.45:
+                g.ins(r.randint(lo, hi))
+            elif y < 0.75:
+                g.dele(r.choice(g.live) if g.live and r.random() < 0.7 else r.randint(lo - 2, hi + 2))
+            else:
+                g.probe(lo - 1, hi + 1)
+            if r.random() < 2 / 3:
+                hide()
+    return "%s %d %s" % (cmpname, seed, ";".join(g.ops))
+
+
 def gen_long(r, nel, seedpool):
     cmpname = r.choice(CMPS)
     g = Gen(r, cmpname, True)
@@ -202,6 +277,12 @@ def impl_run(binary, hists, timeout):
     return out, problems
 
 
+def opl(o):
+    """Operation letter of an op text; a leading '~' marks an unobserved op."""
+    o = o.strip().lstrip("~").strip()
+    return o[0] if o else "?"
+
+
 def heights_of(line):
     f = line.split("|")
     if len(f) != 6 or f[4] == "":
@@ -213,24 +294,35 @@ def heights_of(line):
 
 
 def annotate(hist, block):
-    """The model's input: the history with the tower heights the implementation drew."""
+    """The model's input: the history with the tower heights the implementation drew.
+    Observed Insert: the height of the newest node (identities are creation numbers) in the dump;
+    unobserved Insert ('~I'): the height the harness printed alone ("<ret>|~|<h>")."""
     cmpname, _seed, rest = (hist.split(" ", 2) + [""])[:3]
     ops = [o for o in rest.split(";") if o.strip()]
-    prev = {}
+    created = 0
     res = []
     for o, line in zip(ops, block):
-        cur = heights_of(line)
         o = o.strip()
-        if o[0] == "I":
-            new = [i for i in cur if i not in prev]
-            h = cur[new[0]] if len(new) == 1 else 1
-            res.append("%s@%d" % (o, max(1, h)))
-        elif o[0] == "F":
-            items = [x for x in o[1:].strip().split(",") if x]
+        un = o.startswith("~")
+        body = o.lstrip("~").strip()
+        if body[0] == "I":
+            created += 1
+            if un:
+                f = line.split("|")
+                try:
+                    h = int(f[2]) if len(f) == 3 else 1
+                except ValueError:
+                    h = 1
+            else:
+                h = heights_of(line).get(created, 1)
+            res.append("%s%s@%d" % ("~" if un else "", body, max(1, h)))
+        elif body[0] == "F":
+            cur = heights_of(line)
+            items = [x for x in body[1:].strip().split(",") if x]
+            created += len(items)
             res.append("F " + ",".join("%s@%d" % (it, max(1, cur.get(j + 1, 1))) for j, it in enumerate(items)))
         else:
             res.append(o)
-        prev = cur
     return "%s %s" % (cmpname, ";".join(res))
 
 
@@ -244,6 +336,8 @@ def dump_invariants(cmpname, line):
     """The skip-list invariants evaluated on one dump line of the implementation.
     Returns the name of the first violated invariant or None."""
     f = line.split("|")
+    if len(f) == 3 and f[1] == "~":      # unobserved op: nothing rendered
+        return None
     if len(f) != 6:
         return "observer"
     if "!" in f[5] or "!" in f[1]:
@@ -310,7 +404,7 @@ def minimise(c, binary, hist, budget=120):
         reduced = False
         for s in range(0, len(ops), chunk):
             cand = ops[:s] + ops[s + chunk:]
-            if not cand or (cand[0][0] != "F" and any(o[0] == "F" for o in cand)):
+            if not cand or (opl(cand[0]) != "F" and any(opl(o) == "F" for o in cand)):
                 continue
             budget -= 1
             f2 = api_failure(c, binary, mk(cand))
@@ -442,6 +536,12 @@ def run(c, binary):
         k = r.choice(kinds)
         kind_count[k] = kind_count.get(k, 0) + 1
         hists.append(gen_history(r, k, r.choice([8, 20, 40, maxops]), seedpool))
+    # "sparse observation" histories: state observed after about a third of the ops only
+    sparse_stats = {"histories": 0, "unobserved_ops": 0, "const_size_runs": 0}
+    for i in range(6000 if full else 150):
+        hists.append(gen_sparse(r, r.choice([12, 30, maxops]), seedpool, sparse_stats))
+        sparse_stats["histories"] += 1
+    c.cov["skip_sparse"] = sparse_stats
     nlong = 0
     if full:
         for nel in [1000, 1500, 2500]:
@@ -489,7 +589,7 @@ def run(c, binary):
                 if hs:
                     mh = max(hs.values())
                     hstat["max_height"] = max(hstat["max_height"], mh)
-                if j < len(ops) and ops[j][0] == "D":
+                if j < len(ops) and opl(ops[j]) == "D":
                     if sz < prev_size:
                         hstat["deletes_present"] += 1
                         nontriv_del = True
@@ -497,7 +597,7 @@ def run(c, binary):
                         hstat["deletes_absent"] += 1
                     if lv < prev_level:
                         hstat["level_drops"] += 1
-                if j < len(ops) and ops[j][0] == "I":
+                if j < len(ops) and opl(ops[j]) == "I":
                     ks = [x.split(":")[0] for x in f[1].split(",")]
                     if len(ks) != len(set(ks)):
                         nontriv_dup = True
@@ -526,13 +626,13 @@ def run(c, binary):
         if fail is None:       # not reproducible in isolation: report the original
             mh, fail = hists[i], (j, "api", "?", "?")
         ops = [o for o in (mh.split(" ", 2) + [""])[2].split(";") if o.strip()]
-        opl = ops[fail[0]].strip()[0] if fail[0] < len(ops) else "?"
+        opl_ = opl(ops[fail[0]]) if fail[0] < len(ops) else "?"
         if fail[1] != "api":
             kind = fail[1]
         else:
             ir, sr = fail[2].split("|")[0], fail[3].split("|")[0]
             kind = "panic" if ir == "panic" else "ret" if ir != sr else "slice"
-        c.report("C05:skip:%s:%s" % (opl, kind),
+        c.report("C05:skip:%s:%s" % (opl_, kind),
                  "skip list: after %s the implementation shows %r, the sorted multiset gives %r" % (ops[fail[0]].strip() if fail[0] < len(ops) else "?", fail[2], fail[3]),
                  {"kind": "input", "history": mh, "first_diverging_op": fail[0], "implementation": fail[2], "specification": fail[3],
                   "format": "<cmp> <seed of x/exp/rand> <ops>; observable = <ret>|<AsSlice>", "how": "echo '<history>' | harness/bin/h c05skip"})
@@ -545,18 +645,18 @@ def run(c, binary):
             if w:
                 viol = (jj, w)
                 break
-        opl = ops[j][0] if j < len(ops) else "?"
+        opl_ = opl(ops[j]) if j < len(ops) else "?"
         if viol:
             jj, w = viol
             p = hists[i].split(" ", 2)
-            c.report("C05:skip:%s:inv:%s" % (ops[jj][0], w),
+            c.report("C05:skip:%s:inv:%s" % (opl(ops[jj]), w),
                      "skip list: index invariant '%s' broken after %s (API observables still agree)" % (w, ops[jj]),
                      {"kind": "input", "history": "%s %s %s" % (p[0], p[1], ";".join(ops[:jj + 1])), "state": blocks[i][jj], "invariant": w,
                       "format": "<ret>|<AsSlice>|<level>|<size>|<id:height>|<chains of ids per level>"})
         else:
             fi, fm = blocks[i][j].split("|"), model[gi][j].split("|")
             which = [n for n, a, b in zip(["ret", "slice", "level", "size", "heights", "towers"], fi, fm) if a != b]
-            c.report("C05:skip:%s:towers" % opl,
+            c.report("C05:skip:%s:towers" % opl_,
                      "skip list: internal index (%s) differs from the model after %s; API observables and the index invariants hold" % (",".join(which), ops[j] if j < len(ops) else "?"),
                      {"kind": "correspondence", "model": "SkipModel (heights model)", "history": hists[i], "first_diverging_op": j,
                       "implementation": blocks[i][j], "expected": model[gi][j],
@@ -584,7 +684,7 @@ def run(c, binary):
                  {"kind": "correspondence", "model": "SkipModel pointer model (Section Ptr)", "history": hists[good[gi]], "first_diverging_op": j,
                   "implementation": blocks[good[gi]][j], "expected": got}, found_input=False)
     # ---- vm_compute cross-check of the extraction
-    short = [gi for gi, i in enumerate(good) if 0 < len(blocks[i]) <= 30]
+    short = [gi for gi, i in enumerate(good) if 0 < len(blocks[i]) <= 30 and "~" not in hists[i]]
     r2 = random.Random(c.seed + 11)
     pick = sorted(r2.sample(short, min(40, len(short))))
     items = [coq_case(annotated[good[gi]], model[gi]) for gi in pick]
@@ -601,6 +701,8 @@ def run(c, binary):
 RULE = ("skip list: histories = (comparator asc/desc/k mod 3/k div 2, seed of x/exp/rand, ops Insert/DeleteElement/Search/Get/Peek/Len/AsSlice, "
         "optionally NewSkipListFromSlice first); kinds mix/tall-seed/from-slice/drain-refill/runs-of-equals; after every op the return value, AsSlice, "
         "level, size, every tower height and every level's chain of node identities are compared with the model fed with the drawn heights; "
+        "plus sparse-observation histories (each op observed with probability 1/3, otherwise only its return value is compared and neither AsSlice nor Len is "
+        "called; runs of 2-5 unobserved DeleteElement/Insert leaving the size unchanged, framed by observations); "
         "non-trivial = history deletes a present element and inserts a duplicate key")
 ASSUMPTIONS = ["skip list: golang.org/x/exp/rand only contributes the tower height of each Insert (read back from the dump and given to the model)"]
 TRUSTED = ["skip list: ocaml/drv_skip.ml, harness/c05skip, hooks/internal/list/x_verif.go + hooks/list/x_skip_verif.go (read-only dump, pass-throughs), checks/c05_skip.py",
